@@ -81,9 +81,12 @@ type c02World struct {
 	failNext      bool
 	failedCalls   []int // indices (0-based) of targeter calls that failed
 	badNext       bool
-	badCalls      []int                    // indices of targeter calls that handed out a target no request can be built from
-	auto          int                      // pacer consultations to answer "no wait" at once, without the harness in between
-	errSalt       int                      // which kind of error the targeter fails with
+	badCalls      []int // indices of targeter calls that handed out a target no request can be built from
+	auto          int   // pacer consultations to answer "no wait" at once, without the harness in between
+	errSalt       int   // which kind of error the targeter fails with
+	holdNext      bool  // the next targeter call blocks until the harness lets it go (a slow, lazily read target source)
+	heldCall      int   // index of the targeter call that is being held (-1: none)
+	heldGate      chan struct{}
 	tails         map[uint64]chan struct{} // requests whose response arrives in two parts: the body tail waits for this
 	entered       []uint64
 	gates         map[uint64]chan error
@@ -134,6 +137,15 @@ func (w *c02World) target(t *vegeta.Target) error {
 		return nil
 	}
 	*t = vegeta.Target{Method: "GET", URL: "c02://c02.test/"}
+	if w.holdNext {
+		w.holdNext = false
+		w.heldCall = idx
+		gate := make(chan struct{})
+		w.heldGate = gate
+		w.mu.Unlock()
+		<-gate // (the deferred Unlock needs the lock again)
+		w.mu.Lock()
+	}
 	return nil
 }
 
@@ -194,7 +206,7 @@ type c02Result struct {
 
 // execC02 must be called inside a synctest bubble.
 func execC02(c c02Case) (res c02Result, err error) {
-	w := &c02World{pacerCh: make(chan c02PacerAns), gates: map[uint64]chan error{}, tails: map[uint64]chan struct{}{}, errSalt: len(c.Script) + int(c.Workers)}
+	w := &c02World{pacerCh: make(chan c02PacerAns), gates: map[uint64]chan error{}, tails: map[uint64]chan struct{}{}, errSalt: len(c.Script) + int(c.Workers), heldCall: -1}
 	// a real *http.Transport (so that transport-level options apply) that hands the "c02" scheme to the harness
 	htr := &http.Transport{}
 	htr.RegisterProtocol("c02", w)
@@ -224,6 +236,7 @@ func execC02(c c02Case) (res c02Result, err error) {
 		closed                    bool
 		failedSeq                 = map[uint64]bool{}
 		headDone                  = map[uint64]bool{} // in transport, response head delivered, body tail outstanding
+		heldSeq                   = int64(-1)         // the hit whose targeter call is being held: started, not yet at the transport
 		badSeq                    = map[uint64]bool{} // the targeter handed out a malformed target for these
 		erroredSeq                = map[uint64]bool{} // the transport failed for these
 		endedStop                 bool                // the attack has ended and (in today's code) called Stop itself
@@ -274,6 +287,8 @@ func execC02(c c02Case) (res c02Result, err error) {
 				// no request can be built: the hit delivers an error result at once, the attack goes on
 				badSeq[seq] = true
 				finished++
+			} else if w.heldCall == i {
+				heldSeq = int64(seq)
 			} else {
 				inTransport = append(inTransport, seq)
 			}
@@ -282,7 +297,7 @@ func execC02(c c02Case) (res c02Result, err error) {
 		// every non-failed started hit must have entered the transport with its own sequence number
 		wantEnt := 0
 		for s := 0; s < started; s++ {
-			if !failedSeq[uint64(s)] && !badSeq[uint64(s)] {
+			if !failedSeq[uint64(s)] && !badSeq[uint64(s)] && int64(s) != heldSeq {
 				wantEnt++
 			}
 		}
@@ -431,7 +446,7 @@ func execC02(c c02Case) (res c02Result, err error) {
 		if pacerWaiting() {
 			e = append(e, "tick", "pstop")
 			w.mu.Lock()
-			fn := w.failNext || w.badNext // (which of several concurrent hits draws the special target is not determined)
+			fn := w.failNext || w.badNext || w.holdNext // (which of several concurrent hits draws the special target is not determined)
 			w.mu.Unlock()
 			if !stopRequested && !fn && M-(started-consumed) >= 2 {
 				e = append(e, "burst")
@@ -451,6 +466,12 @@ func execC02(c c02Case) (res c02Result, err error) {
 		w.mu.Lock()
 		if !w.failNext && !w.badNext && !loopEnded {
 			e = append(e, "fail", "bad")
+		}
+		if !w.failNext && !w.badNext && !w.holdNext && w.heldCall < 0 && !loopEnded {
+			e = append(e, "holdtarget")
+		}
+		if w.heldCall >= 0 {
+			e = append(e, "releasetarget")
 		}
 		w.mu.Unlock()
 		return e
@@ -746,6 +767,29 @@ func execC02(c c02Case) (res c02Result, err error) {
 			w.mu.Lock()
 			w.badNext = true
 			w.mu.Unlock()
+		case "holdtarget":
+			w.mu.Lock()
+			w.holdNext = true
+			w.mu.Unlock()
+		case "releasetarget":
+			// the target source delivers at last: the hit goes on to the transport whatever has happened to the
+			// attack in the meantime (it has its sequence number: it owes a result)
+			w.mu.Lock()
+			gate := w.heldGate
+			w.heldCall, w.heldGate = -1, nil
+			w.mu.Unlock()
+			seq := uint64(heldSeq)
+			heldSeq = -1
+			close(gate)
+			synctest.Wait()
+			inTransport = append(inTransport, seq)
+			n, err := absorbStarts()
+			if err != nil {
+				return fail("C02: after a slow targeter call returned (hit %d): %v", seq, err)
+			}
+			if n != 0 {
+				return fail("a hit started when a targeter call returned")
+			}
 		}
 		// after a stop cause the loop ends as soon as it notices: a granted tick either released one more hit or ended the loop
 		if stopRequested && !loopEnded && !pacerWaiting() && !pending {
@@ -778,7 +822,12 @@ func execC02(c c02Case) (res c02Result, err error) {
 	history = append(history, "|drain:")
 	for i := 0; i < 4*(started+M+4) && !closed; i++ {
 		var a c02Act
+		w.mu.Lock()
+		held := w.heldCall >= 0
+		w.mu.Unlock()
 		switch {
+		case held:
+			a = c02Act{K: "releasetarget"}
 		case pacerWaiting():
 			a = c02Act{K: "pstop"}
 		case len(inTransport) > 0:
@@ -909,7 +958,7 @@ var c02Options = map[string]func(*vegeta.Attacker){
 
 var c02OptionNames = []string{"max-connections=1", "max-connections=2", "connections=1", "keepalive=false", "http2=false", "timeout=1h", "timeout=1s", "redirects=0", "max-body=0", "chunked"}
 
-var c02Kinds = []string{"tick", "tick", "tick", "tick", "burst", "bad", "completehead", "waitstop", "complete", "complete", "completeerr", "consume", "consume", "consume", "stop", "pstop", "fail", "sleep"}
+var c02Kinds = []string{"tick", "tick", "tick", "tick", "burst", "bad", "completehead", "waitstop", "holdtarget", "releasetarget", "complete", "complete", "completeerr", "consume", "consume", "consume", "stop", "pstop", "fail", "sleep"}
 
 func c02Classify(c c02Case, res c02Result) (bool, []string) {
 	var labels []string
